@@ -524,8 +524,23 @@ def c08_5(ck, prog):
         raise AnalysisBroken('try_to_authenticate: anchors vanished')
     nset = [0]
 
+    # values _dbus_auth_do_work can return (all of its returns are constants, checked below)
+    dwf = prog.fn('_dbus_auth_do_work', AUTH)
+    dw_rets = [ev['e'] for b, i, ev in dwf.events() if ev['ev'] == 'return']
+    dw_vals = {x['v'] for x in dw_rets if is_int(x)}
+    closed = bool(dw_rets) and all(is_int(x) for x in dw_rets)
+    sw_cases = set()
+    for bid, blk in ta.blocks.items():
+        if blk.get('case'):
+            sw_cases.update(range(blk['case'][0], blk['case'][1] + 1))
+    from engine.cfg import INFEASIBLE
+
     def on_edge(user, bid, idx, atom, sense, ctx):
         if isinstance(idx, tuple) and atom and atom[0] == 'switch' and is_call(atom[1], '_dbus_auth_do_work'):
+            if idx[0] == 'default' and closed and dw_vals <= sw_cases:
+                return INFEASIBLE      # every value do_work can return has its own case
+            if idx[0] == 'case' and closed and not any(idx[1] <= v <= idx[2] for v in dw_vals):
+                return INFEASIBLE      # a case for a value do_work never returns (DBUS_AUTH_STATE_INVALID)
             if idx[0] == 'case' and idx[1] <= AUTHD <= idx[2]:
                 return user | {'auth-state'}
             return user - {'auth-state'}
